@@ -1432,6 +1432,9 @@ func c14RunIDL(r *rng, prog []*iFile, o iOpts, checkID int, sweeps bool) {
 		dumpService(&t, svc, c14Depth, &seen)
 	}
 	out.emit(checkID, t...)
+	if checkID == 1405 || checkID == 1408 {
+		out.emit(1409, t...) // the same case judged by the transcription of the compiler (IdlParse.parse)
+	}
 	// lookup sweeps on (a sample of) the struct descriptors reached by the dump
 	if sweeps && len(seen) > 0 {
 		done := map[*thrift.StructDescriptor]bool{}
